@@ -107,6 +107,107 @@ class World:
         self.mgrs[mid] = m
         return m
 
+    # managers outside the shapes the bytecode analysis expects (C06 only: the C01 oracle does not apply to them)
+    def SM(self, probes: bool = False):
+        """__exit__ is a staticmethod: the value-stack slot holds a plain function (no __self__) -> trickery fails, referents fallback."""
+        w = self
+        mid = self.next_id
+        self.next_id += 1
+
+        class SMgr:
+            def __enter__(s):
+                w.log.append(("enter_start", mid))
+                w.log.append(("entered", mid))
+                return [s, 1, 2]
+
+            @staticmethod
+            def __exit__(et, ev, tb):
+                w.log.append(("exit_start", mid))
+                if probes:
+                    w.observer(w, f"in __exit__ of {mid}")
+                w.log.append(("exit_end", mid))
+                return False
+
+        m = SMgr()
+        self.mgrs[mid] = m
+        return m
+
+    def CM(self, probes: bool = False):
+        """A generator-based manager (contextlib.contextmanager)."""
+        import contextlib
+
+        w = self
+        mid = self.next_id
+        self.next_id += 1
+
+        @contextlib.contextmanager
+        def cm():
+            w.log.append(("enter_start", mid))
+            with w.M():
+                w.log.append(("entered", mid))
+                try:
+                    yield [None, 1, 2]
+                finally:
+                    w.log.append(("exit_start", mid))
+                    if probes:
+                        w.observer(w, f"in __exit__ of {mid}")
+                    w.log.append(("exit_end", mid))
+
+        m = cm()
+        self.mgrs[mid] = m
+        return m
+
+    def ES(self, probes: bool = False):
+        """An ExitStack holding two managers and a callback."""
+        import contextlib
+
+        w = self
+        mid = self.next_id
+        self.next_id += 1
+        es = contextlib.ExitStack()
+        es.enter_context(w.M(probes))
+        es.callback(w.log.append, ("callback", mid))
+        es.enter_context(w.M())
+        self.mgrs[mid] = es
+
+        class Wrap:
+            def __enter__(s):
+                w.log.append(("entered", mid))
+                es.__enter__()
+                return [s, 1, 2]
+
+            def __exit__(s, *a):
+                w.log.append(("exit_start", mid))
+                r = es.__exit__(*a)
+                w.log.append(("exit_end", mid))
+                return r
+
+        return Wrap()
+
+    def ACM(self, probes: bool = False):
+        import contextlib
+
+        w = self
+        mid = self.next_id
+        self.next_id += 1
+
+        @contextlib.asynccontextmanager
+        async def acm():
+            w.log.append(("enter_start", mid))
+            async with w.AM():
+                w.log.append(("entered", mid))
+                try:
+                    yield [None, 1, 2]
+                finally:
+                    w.log.append(("exit_start", mid))
+                    if w.ch() == 1:
+                        await trap()
+                    w.log.append(("exit_end", mid))
+
+        m = acm()
+        self.mgrs[mid] = m
+        return m
+
     def probe(self):
         self.observer(self, "probe in body")
 
@@ -149,10 +250,11 @@ TARGETS = [None, None, "x", "y", "ns.a", "(p, *q)", "d[0]"]
 
 
 class Gen:
-    def __init__(self, rng: random.Random, kind: str, probes: bool):
+    def __init__(self, rng: random.Random, kind: str, probes: bool, odd: bool = False):
         self.rng = rng
         self.kind = kind
         self.probes = probes
+        self.odd = odd
         self.in_loop = 0
         self.budget = 28          # compound statements left: keeps programs readable and fast
 
@@ -204,6 +306,8 @@ class Gen:
             for _ in range(k):
                 t = rng.choice(TARGETS)
                 ctor = ("W.AM(%s)" if is_async else "W.M(%s)") % ("True" if self.probes else "")
+                if self.odd and rng.random() < 0.35:
+                    ctor = (rng.choice(["W.ACM(%s)"]) if is_async else rng.choice(["W.SM(%s)", "W.CM(%s)", "W.ES(%s)"])) % ("True" if self.probes else "")
                 items.append(ctor + (f" as {t}" if t else ""))
             head = ind + ("async with " if is_async else "with ") + ", ".join(items) + ":"
             return [head] + self.block(depth - 1, ind + "    ")
@@ -234,8 +338,8 @@ class Gen:
                [ind + "    case 1:"] + self.block(depth - 1, ind + "        ", 2) + [ind + "    case _:", ind + "        pad = 2"]
 
 
-def gen_program(rng: random.Random, kind: str, depth: int, probes: bool = False) -> str:
-    g = Gen(rng, kind, probes)
+def gen_program(rng: random.Random, kind: str, depth: int, probes: bool = False, odd: bool = False) -> str:
+    g = Gen(rng, kind, probes, odd)
     head = {"gen": "def prog(W, ns, d):", "coro": "async def prog(W, ns, d):", "agen": "async def prog(W, ns, d):",
             "sync": "def prog(W, ns, d):"}[kind]
     body = []
@@ -270,9 +374,9 @@ def run_program(src: str, kind: str, choices: List[int], observer: Callable[[Wor
             w.target = None
             w.kind = kind
             try:
-                glob["prog"](w, ns, d)
+                w.log.append(("out:return", repr(glob["prog"](w, ns, d))))
             except Boom:
-                pass
+                w.log.append(("out:raise", "Boom"))
             return w
         w.target = obj
         w.kind = kind
@@ -281,17 +385,19 @@ def run_program(src: str, kind: str, choices: List[int], observer: Callable[[Wor
             steps += 1
             try:
                 if kind == "gen":
-                    next(obj)
+                    w.log.append(("out:yield", repr(next(obj))))
                 elif kind == "coro":
-                    obj.send(None)
+                    w.log.append(("out:trap", repr(obj.send(None))))
                 else:
                     if getattr(w, "_pending", None) is None:
                         w._pending = obj.asend(None)
                     try:
-                        w._pending.send(None)
-                    except StopIteration:
+                        w.log.append(("out:trap", repr(w._pending.send(None))))
+                    except StopIteration as e:
                         w._pending = None      # the async generator yielded a value: suspended at `yield`
-            except (StopIteration, StopAsyncIteration, Boom):
+                        w.log.append(("out:yield", repr(e.value)))
+            except (StopIteration, StopAsyncIteration, Boom) as e:
+                w.log.append(("out:end", type(e).__name__ + ":" + repr(getattr(e, "value", None))))
                 break
             observer(w, "suspended")
     finally:
